@@ -41,6 +41,12 @@
 (*            ScoreAssign.tla - grains presented in order, a peak goes to   *)
 (*            the grain whose error is below EMAX and strictly below what   *)
 (*            is stored for the peak - folded over the accepted list)       *)
+(*            Reset (indexer.reset(), at most NRESET times, between pair    *)
+(*            loops: ga, ubis, hits, drl back to what the constructor left, *)
+(*            the pair loops start again from the first setting; resets     *)
+(*            counts them, snap / alias model the snapshot's ga array and   *)
+(*            whether the object's ga IS that array - only the SHARE        *)
+(*            variant ever makes it so)                                     *)
 (* checked    GaRange, AcceptedScore (score > the minimum in force at       *)
 (*            acceptance), GrainCap (ng <= max_grains in one scorethem      *)
 (*            call), NoRepeat (a lattice is never accepted twice, also not  *)
@@ -49,7 +55,11 @@
 (*            after a Save every peak belongs to the accepted grain that    *)
 (*            fits it best, the earlier one on ties, or to none when no     *)
 (*            accepted grain indexes it - stated by brute force, not by     *)
-(*            the fold), PairCap (n = NCAP stops the pair loop after        *)
+(*            the fold), ResetOK (action property: after a Reset no peak    *)
+(*            has a grain and no orientation is held), Settles (liveness:   *)
+(*            after the last reset the search runs to its end and stays     *)
+(*            there; Completeness then says every grain is found AGAIN),    *)
+(*            PairCap (n = NCAP stops the pair loop after                   *)
 (*            NCAP + 1 pairs), Termination (liveness, under WF: every ring  *)
 (*            pair of every pass is tried and the run ends), Completeness   *)
 (*            (at the end every TRUE candidate that scores above the        *)
@@ -68,6 +78,13 @@
 (*            errors survive a call; EXPECTED to violate NoRepeat: the      *)
 (*            second Save strips the old grains of their peaks and the      *)
 (*            next pair loop accepts them again)                            *)
+(*            _reset (NRESET = 2, one save: reset() anywhere between ring   *)
+(*            pairs, twice; ResetOK, Settles, and Completeness / NoRepeat   *)
+(*            on what the last search holds), _reset_shared (SHARE = TRUE:  *)
+(*            reset() hands out the snapshot's own ga array, which          *)
+(*            PopAccept then writes; EXPECTED to violate Completeness:      *)
+(*            after the second reset every peak still has a grain and the   *)
+(*            search finds nothing)                                         *)
 (***************************************************************************)
 EXTENDS Integers, Sequences, FiniteSets, TLC
 
@@ -83,7 +100,9 @@ CONSTANTS NOISY,       \* FALSE: ideal instance (Completeness asserted); TRUE: a
           NCAP,        \* 0: all pairs; n > 0: score_all_pairs(n = NCAP) (the loop breaks once k > n)
           ALLHITS,     \* TRUE: find offers every pair (cosine_tol < 0); FALSE: one partner per first peak
           NSAVE,       \* fight_over_peaks / saveindexing calls the user may make between pair loops
-          FRESH        \* TRUE: fight_over_peaks allocates drlv2 on every call (indexing.py:879); FALSE: it is kept
+          FRESH,       \* TRUE: fight_over_peaks allocates drlv2 on every call (indexing.py:879); FALSE: it is kept
+          NRESET,      \* reset() calls the user may make between pair loops (indexing.py:400-409)
+          SHARE        \* FALSE: reset() hands out a deep copy of the constructor's snapshot; TRUE: the snapshot's own ga array
 
 Peaks == 1..NP
 \* ---- the abstract instance (defined here because cfg files cannot hold functions) --------------
@@ -109,10 +128,12 @@ Cand(i, j) == IF {i, j} = {7, 8} THEN (IF NOISY THEN 5 ELSE 0)
               ELSE IF {i, j} \subseteq Idx[2] THEN 2
               ELSE IF {i, j} \subseteq Idx[4] THEN 4 ELSE 0
 ASSUME NP = 8 /\ NR = 2 /\ NC = 5 /\ NPASS \in 1..2 /\ NCAP \in Nat /\ NSAVE \in Nat /\ FRESH \in BOOLEAN
+ASSUME NRESET \in Nat /\ SHARE \in BOOLEAN
 ASSUME \A c \in 1..NC : \A p \in 1..NP : (Err[c][p] < EMAX) <=> (p \in Idx[c])
 
-VARIABLES ga, ubis, hits, top, pairs, cur, ng, pass, ntried, drl, saved
-vars == <<ga, ubis, hits, top, pairs, cur, ng, pass, ntried, drl, saved>>
+VARIABLES ga, ubis, hits, top, pairs, cur, ng, pass, ntried, drl, saved, resets, snap, alias
+rs == <<resets, snap, alias>>
+vars == <<ga, ubis, hits, top, pairs, cur, ng, pass, ntried, drl, saved, resets, snap, alias>>
 
 PAIRS_all == {<<r1, r2>> : r1 \in 1..NR, r2 \in 1..NR}
 PAIRS_cross == {<<1, 2>>, <<2, 1>>}
@@ -124,6 +145,7 @@ Init == /\ ga = [p \in Peaks |-> -1]
         /\ ubis = <<>> /\ hits = {} /\ top = <<>>
         /\ pairs = AllPairs /\ cur = <<>> /\ ng = 0 /\ pass = 1 /\ ntried = 0
         /\ drl = [p \in Peaks |-> EMAX] /\ saved = 0
+        /\ resets = 0 /\ snap = [p \in Peaks |-> -1] /\ alias = FALSE
 
 \* find(): any order of the hits between unassigned peaks of the two rings
 \* the ideal instance uses peaks 1..6 (grains A, B); the noisy one peaks {1,2,5,7,8} (grain A + two strays)
@@ -143,12 +165,12 @@ Find == /\ cur = <<>> /\ pairs # {} /\ ~Capped
         /\ \E pr \in pairs :
              /\ cur' = pr /\ pairs' = pairs \ {pr}
              /\ \E hs \in HitSets(pr[1], pr[2]) : hits' = hs
-        /\ ng' = 0 /\ ntried' = ntried + 1 /\ UNCHANGED <<ga, ubis, top, pass, drl, saved>>
+        /\ ng' = 0 /\ ntried' = ntried + 1 /\ UNCHANGED <<ga, ubis, top, pass, drl, saved, rs>>
 
 \* diff, i, j = self.hits.pop()
 PopHit == /\ cur # <<>> /\ top = <<>> /\ hits # {} /\ ng < MAXGRAINS
           /\ \E h \in hits : top' = h /\ hits' = hits \ {h}
-          /\ UNCHANGED <<ga, ubis, pairs, cur, ng, pass, ntried, drl, saved>>
+          /\ UNCHANGED <<ga, ubis, pairs, cur, ng, pass, ntried, drl, saved, rs>>
 Scoring == cur # <<>> /\ top # <<>>
 Top == top
 Pop == top' = <<>> /\ UNCHANGED hits
@@ -156,26 +178,27 @@ Unassigned(c) == Cardinality({p \in Idx[c] : ga[p] = -1})
 UniqueEnough(c) == Unassigned(c) * UNIQ_DEN > UNIQ_NUM * Cardinality(Idx[c])
 
 PopSkip == /\ Scoring /\ (ga[Top[1]] > -1 \/ ga[Top[2]] > -1 \/ Top[1] = Top[2])
-           /\ Pop /\ UNCHANGED <<ga, ubis, pairs, cur, ng, pass, ntried, drl, saved>>
+           /\ Pop /\ UNCHANGED <<ga, ubis, pairs, cur, ng, pass, ntried, drl, saved, rs>>
 Live == Scoring /\ ga[Top[1]] = -1 /\ ga[Top[2]] = -1 /\ Top[1] # Top[2]
 PopLow == /\ Live /\ (IF Cand(Top[1], Top[2]) = 0 THEN TRUE ELSE ScoreAt(Cand(Top[1], Top[2]), pass) <= MinP(pass))
-          /\ Pop /\ UNCHANGED <<ga, ubis, pairs, cur, ng, pass, ntried, drl, saved>>
+          /\ Pop /\ UNCHANGED <<ga, ubis, pairs, cur, ng, pass, ntried, drl, saved, rs>>
 PopReject == /\ Live /\ Cand(Top[1], Top[2]) # 0
              /\ LET c == Cand(Top[1], Top[2]) IN ScoreAt(c, pass) > MinP(pass) /\ ~UniqueEnough(c)
-             /\ Pop /\ UNCHANGED <<ga, ubis, pairs, cur, ng, pass, ntried, drl, saved>>
+             /\ Pop /\ UNCHANGED <<ga, ubis, pairs, cur, ng, pass, ntried, drl, saved, rs>>
 PopAccept == /\ Live /\ Cand(Top[1], Top[2]) # 0
              /\ LET c == Cand(Top[1], Top[2])
                 IN /\ ScoreAt(c, pass) > MinP(pass) /\ UniqueEnough(c)
                    /\ ga' = [p \in Peaks |-> IF p \in Idx[c] THEN Len(ubis) + 1 ELSE ga[p]]
                    /\ ubis' = Append(ubis, <<c, pass>>)
-             /\ ng' = ng + 1 /\ Pop /\ UNCHANGED <<pairs, cur, pass, ntried, drl, saved>>
+             /\ snap' = (IF alias THEN ga' ELSE snap)        \* self.ga[ind] = ... writes the array in place
+             /\ ng' = ng + 1 /\ Pop /\ UNCHANGED <<pairs, cur, pass, ntried, drl, saved, resets, alias>>
 EndScore == /\ cur # <<>> /\ top = <<>> /\ (hits = {} \/ ng >= MAXGRAINS)
-            /\ cur' = <<>> /\ hits' = {} /\ UNCHANGED <<ga, ubis, top, pairs, ng, pass, ntried, drl, saved>>
+            /\ cur' = <<>> /\ hits' = {} /\ UNCHANGED <<ga, ubis, top, pairs, ng, pass, ntried, drl, saved, rs>>
 \* index() / do_index(): the next (minpks, hkl_tol) setting on the SAME indexer: ga and ubis are kept
 PassDone == cur = <<>> /\ (pairs = {} \/ Capped)
 NextPass == /\ PassDone /\ pass < NPASS
             /\ pass' = pass + 1 /\ pairs' = AllPairs /\ ntried' = 0
-            /\ UNCHANGED <<ga, ubis, hits, top, cur, ng, drl, saved>>
+            /\ UNCHANGED <<ga, ubis, hits, top, cur, ng, drl, saved, rs>>
 
 \* fight_over_peaks (what saveindexing runs first): labels start at -1; the accepted grains are presented in order with the
 \* labels 0, 1, ...; score_and_assign hands a peak to the presented grain when its error is within the tolerance AND
@@ -192,9 +215,22 @@ Save == /\ cur = <<>> /\ saved < NSAVE
         /\ LET r == Fight(1, [p \in Peaks |-> -1], IF FRESH THEN [p \in Peaks |-> EMAX] ELSE drl)
            IN ga' = r[1] /\ drl' = r[2]
         /\ saved' = saved + 1
-        /\ UNCHANGED <<ubis, hits, top, pairs, cur, ng, pass, ntried>>
+        /\ alias' = FALSE                                    \* self.ga = labels: a new array is bound
+        /\ UNCHANGED <<ubis, hits, top, pairs, cur, ng, pass, ntried, resets, snap>>
 
-Next == Find \/ PopHit \/ PopSkip \/ PopLow \/ PopReject \/ PopAccept \/ EndScore \/ NextPass \/ Save
+\* reset(): the object goes back to the state the constructor left (a deep copy of the snapshot taken there): no peak
+\* has a grain, no orientation is held, no hit list, no stored errors; the pair loops start again from the first setting.
+\* SHARE: the variant that hands the snapshot's own ga array to the object instead of a copy
+Reset == /\ cur = <<>> /\ resets < NRESET
+         /\ ga' = (IF SHARE THEN snap ELSE [p \in Peaks |-> -1])
+         /\ alias' = SHARE
+         /\ ubis' = <<>> /\ hits' = {} /\ top' = <<>> /\ ng' = 0
+         /\ pass' = 1 /\ pairs' = AllPairs /\ ntried' = 0
+         /\ drl' = [p \in Peaks |-> EMAX]
+         /\ resets' = resets + 1
+         /\ UNCHANGED <<cur, saved, snap>>
+
+Next == Find \/ PopHit \/ PopSkip \/ PopLow \/ PopReject \/ PopAccept \/ EndScore \/ NextPass \/ Save \/ Reset
 Spec == Init /\ [][Next]_vars /\ WF_vars(Next)
 
 \* ---- properties --------------------------------------------------------------------------------
@@ -215,8 +251,14 @@ Best(p) == IF Owners(p) = {} THEN -1
                     \/ Err[ubis[k][1]][p] < Err[ubis[m][1]][p]
                     \/ (Err[ubis[k][1]][p] = Err[ubis[m][1]][p] /\ k <= m)) - 1
 SaveOK == [][(saved' = saved + 1) => (\A p \in Peaks : ga'[p] = Best(p))]_vars
+\* reset(): whatever happened before, afterwards no peak has a grain and no orientation is held (stated on the
+\* outcome, not on how the copy is made)
+ResetOK == [][(resets' = resets + 1) => (ga' = [p \in Peaks |-> -1] /\ ubis' = <<>> /\ hits' = {})]_vars
 Finished == PassDone /\ pass = NPASS
 Termination == <>Finished
+\* every history settles: once the user's resets are used up the last search runs to its end (and Completeness / NoRepeat
+\* are asserted on what it holds then: every grain found again, exactly once)
+Settles == <>[]Finished
 \* ideal data: a true grain that scores above the minimum of some pass and owns a hit nothing else explains, on a
 \* permitted ring pair, is found.  closest mode: some peak of its own has only partners that propose this lattice
 Exclusive(c) == {p \in Idx[c] : \A d \in 1..NC : (Class[d] # Class[c] /\ True_[d]) => p \notin Idx[d]}
